@@ -102,12 +102,22 @@ class Cards:
             for n in ast.walk(e):
                 if isinstance(n, ast.Compare) and len(n.ops) == 1:
                     l, r, op = n.left, n.comparators[0], n.ops[0]
-                    islen = lambda x: isinstance(x, ast.Call) and call_name(x) == "len" and x.args and \
-                        isinstance(x.args[0], ast.Name) and x.args[0].id == var  # noqa: E731
-                    if islen(l) and self.const(r) is not None:
-                        k = self.const(r)
-                    elif islen(r) and self.const(l) is not None:
-                        k = self.const(l)
+                    def islen(x):
+                        """0: len(line) (the card with its newline), 1: len(line.rstrip(..)) (newline removed), None: no"""
+                        if not (isinstance(x, ast.Call) and call_name(x) == "len" and x.args):
+                            return None
+                        a = x.args[0]
+                        if isinstance(a, ast.Name) and a.id == var:
+                            return 0
+                        if isinstance(a, ast.Call) and isinstance(a.func, ast.Attribute) and a.func.attr == "rstrip" and \
+                                isinstance(a.func.value, ast.Name) and a.func.value.id == var and \
+                                all(isinstance(g, ast.Constant) and set(str(g.value)) <= set("\r\n") for g in a.args):
+                            return 1
+                        return None
+                    if islen(l) is not None and self.const(r) is not None:
+                        k = self.const(r) + islen(l)
+                    elif islen(r) is not None and self.const(l) is not None:
+                        k = self.const(l) + islen(r)
                         op = {ast.Lt: ast.Gt, ast.Gt: ast.Lt, ast.LtE: ast.GtE, ast.GtE: ast.LtE}.get(type(op), type(op))()
                     else:
                         continue
@@ -212,12 +222,17 @@ def r1_columns(ctx, rep):
     if not ex:
         raise AnalysisError("FortranLine.__analyse: excess_line is never set to the text beyond the limit")
     ecols = cards.columns([x for v in ex for x in cards.closure(v, an)])
-    bang = any(isinstance(x, ast.Constant) and x.value == "!" for v in ex for x in ast.walk(v)) or \
-        any(isinstance(v, ast.JoinedStr) and v.values and isinstance(v.values[0], ast.Constant) and str(v.values[0].value).startswith("!") for v in ex)
     trunc = cards.columns([v for _, v in astq.assignments(an, "line") if v is not None and not ast.unparse(v).startswith("self.")])
-    ok = ecols == {(73, INF)} and bang and (1, 72) in trunc
-    ob("text beyond column 72 becomes a comment", ok, "excess = '!' + columns 73.., statement = columns 1-72",
-       f"the column-72 split changed: excess from columns {sorted(ecols)} (as comment: {bang}), statement keeps {sorted(trunc)}", an)
+    ok = (1, 72) in trunc
+    ob("the statement of a long card is columns 1-72", ok, "statement = columns 1-72",
+       f"the column-72 split changed: the statement keeps {sorted(trunc)}", an)
+    # what is beyond column 72 is ignored: it must not travel on with the converted line.  Re-attached as a trailing `!`
+    # comment it is not ignored: an inline doc comment on the card runs to the end of the line and absorbs it, and an excess
+    # that itself starts with `!` (`!SEQ`, `!! text`) turns `!` + excess into a doc comment
+    ok = not ecols
+    ob("text beyond column 72 is dropped", ok, "nothing of columns 73.. is carried over",
+       f"columns {sorted(ecols)} are re-attached to the converted line as a comment: `      INTEGER K  !! doc` + sequence field gives K the "
+       f"documentation `doc ... !SEQ00020`, and `      REAL X` + `!! text` in columns 73.. documents X with `! text`", an)
     cols = cards.columns(role(cv, "code"))
     ob("statement field starts in column 7", cols == {(7, INF)}, "code = columns 7..", f"code is taken from columns {sorted(cols)}", cv)
     # comment cards become ! comments: under isComment, line_conv = '!' + columns 2..
